@@ -365,8 +365,21 @@ def _isnan(v):
     return isinstance(v, float) and v != v
 
 
+def _neg0(v):
+    return isinstance(v, float) and v == 0 and math.copysign(1.0, v) < 0
+
+
+def _fmt(v):
+    return "-0.0" if _neg0(v) else str(v)
+
+
 GRID = [Fraction(k) for k in (-3, -2, -1, 0, 1, 2, 3)]
-IVALS = [(a, b) for a in GRID for b in GRID if a <= b]
+INF = float("inf")
+# single values also range over the infinities and the negative zero (C02 asks for the interpreter's bits, and a
+# clause that computes its answer arithmetically - `lhs - rhs` for "equal" - goes wrong exactly there)
+PGRID = [-INF] + GRID[:3] + [-0.0] + GRID[3:] + [INF]
+IGRID = [-INF] + GRID + [INF]
+IVALS = [(a, b) for a in IGRID for b in IGRID if a <= b]
 
 
 def witnesses(kind, binary, same, imm):
@@ -375,19 +388,20 @@ def witnesses(kind, binary, same, imm):
     out = []
     if kind == "interval":
         ls = IVALS
-        rs = [(c, c) for c in GRID] if imm == 1 else IVALS
+        rs = [(c, c) for c in IGRID] if imm == 1 else IVALS
         if imm == 0:
-            ls = [(c, c) for c in GRID]
+            ls = [(c, c) for c in IGRID]
         if not binary:
             return [(list(a), None) for a in ls]
         if same:
             return [(list(a), list(a)) for a in ls]
         return [(list(a), list(b)) for a in ls for b in rs]
+    g = PGRID if kind == "point" else GRID
     if not binary:
-        return [([a], None) for a in GRID]
+        return [([a], None) for a in g]
     if same:
-        return [([a], [a]) for a in GRID]
-    return [([a], [b]) for a in GRID for b in GRID]
+        return [([a], [a]) for a in g]
+    return [([a], [b]) for a in g for b in g]
 
 
 # -- the interpreter's meaning, per order type (frozen from fidget-core/src/types/{float,interval,grad}.rs; the
@@ -414,8 +428,6 @@ def want_point(op, a, b):
         return (a, 1) if a != 0 else (b, 2)
     if op == "compare":
         return (Fraction(_cmp(a, b)), None)
-    if op == "abs":
-        return (abs(a), None)
     return None
 
 
@@ -649,8 +661,9 @@ def _judge(kind, op, wl, wr, s, got, syms, env, nl, tracing, la, ra):
         v, err = _num(got, 0, syms, env, [], s.cache)
         if v is None:
             return ("skip", err)
-        if v != w[0]:
-            return ("bad", "the output is %s, the interpreter's is %s" % (v, w[0]))
+        zeros = op in ("max", "min") and wl[0] == 0 and wr[0] == 0  # the one exemption C02 grants: the sign of such a zero
+        if _isnan(v) or v != w[0] or (v == 0 and not zeros and _neg0(v) != _neg0(w[0])):
+            return ("bad", "the output is %s, the interpreter's is %s" % (_fmt(v), _fmt(w[0])))
         choice_want = w[1]
     elif kind == "interval":
         w = want_interval(op, wl, wr)
